@@ -427,10 +427,17 @@ def run_case(idx, rng, P, rep):
             rep.count('metadata_edits')
             trace.append(('inst_meta', ii, p, a))
             if a == 'objects':
-                if rng.random() < 0.6:
+                c2 = rng.random()
+                if c2 < 0.5:
                     pobj.objects.append(('o', t))
-                else:
+                elif c2 < 0.8:
                     pobj.objects = [('o', t), ('o', t + 1)]
+                else:
+                    # take over the objects of another holder's Parameter (its proxy is handed over as it is), then edit
+                    donors = [classes[inst['ci']].param[p]] + [x['obj'].param[p] for jj, x in enumerate(insts) if jj != ii and p in x['touched']]
+                    pobj.objects = rng.choice(donors).objects
+                    pobj.objects.append(('o', t))
+                    rep.count('objects_taken_over_from_another_parameter')
             elif a == 'bounds':
                 pobj.bounds = (-t, t)
             elif a == 'step':
